@@ -493,6 +493,7 @@ type HEVCSPSTree struct {
 type HEVCSPSInfo struct {
 	ScalingListBit int // position of scaling_list_data() (or -1)
 	StRPSBit       int // position of the first st_ref_pic_set() (position of what follows num_short_term_ref_pic_sets)
+	VUIBit         int // position of vui_parameters() (or -1)
 	Bits           int // bits before rbsp_trailing_bits
 }
 
@@ -551,7 +552,7 @@ func hevcWriteSPSSccExt(w *BitWriter, e *hevc.SPSSccExtension, chromaFormatIDC, 
 // HEVCWriteSPS serialises seq_parameter_set_rbsp() into a complete NAL unit (nuh_layer_id 0).
 func HEVCWriteSPS(t *HEVCSPSTree) ([]byte, HEVCSPSInfo) {
 	s := &t.SPS
-	info := HEVCSPSInfo{ScalingListBit: -1}
+	info := HEVCSPSInfo{ScalingListBit: -1, VUIBit: -1}
 	w := NewBitWriter()
 	tid := t.TemporalIDPlus1
 	if tid == 0 {
@@ -647,6 +648,7 @@ func HEVCWriteSPS(t *HEVCSPSTree) ([]byte, HEVCSPSInfo) {
 	w.Flag(s.StrongIntraSmoothingEnabledFlag)
 	w.Flag(s.VUIParametersPresentFlag)
 	if s.VUIParametersPresentFlag {
+		info.VUIBit = w.NrBits()
 		hevcWriteVUI(w, s.VUI, &t.VUIExtra, maxSub)
 	}
 	w.Flag(s.ExtensionPresentFlag)
